@@ -114,6 +114,50 @@ pub fn run_case(c: &Case, r: &mut Report) {
     }
 }
 
+/// payloads for authentic tokens: not JSON, not an object, extreme and malformed time claims, deep nesting, huge numbers
+fn hostile_payloads(rng: &mut Rng, thorough: bool) -> Vec<String> {
+    let mut v: Vec<String> = vec![
+        "", " ", "null", "true", "0", "[]", "\"str\"", "{", "}", "{}", "{\"exp\"}", "{\"exp\":}", "[{\"exp\":\"2999-01-01T00:00:00Z\"}]", "{\"a\":1}{\"b\":2}", "\u{feff}{}", "{\"a\":1e400}",
+        "{\"a\":-0}", "{\"a\":18446744073709551616}", "{\"a\":1.7976931348623157e309}", "{\"\":1}", "{\"a\":\"\\ud800\"}", "{\"a\":\"\\u0000\"}", "{\"exp\":null,\"exp\":\"2000-01-01T00:00:00Z\"}",
+    ]
+    .into_iter()
+    .map(|s| s.to_string())
+    .collect();
+    // time claims at and beyond the edges of what date libraries represent
+    let times = [
+        "9999-12-31T23:59:59Z", "9999-12-31T23:59:59-00:01", "9999-12-31T23:59:59-05:00", "9999-12-31T23:59:59-23:59", "9999-12-31T23:59:59.999999999-23:59", "9999-12-31T00:00:00-23:59",
+        "0000-01-01T00:00:00Z", "0000-01-01T00:00:00+00:01", "0000-01-01T00:00:00+23:59", "0001-01-01T00:00:00+23:59", "-0001-01-01T00:00:00Z", "+10000-01-01T00:00:00Z", "10000-01-01T00:00:00Z",
+        "9999-12-31T23:59:60Z", "2016-12-31T23:59:60Z", "2999-02-29T00:00:00Z", "2999-01-01T24:00:00Z", "2999-01-01T00:00:00+99:99", "2999-01-01T00:00:00-24:00", "2999-01-01T00:00:00.Z",
+        "2999-01-01T00:00:00.123456789012345678901234567890Z", "2999-01-01T00:00:00+00:00:00", "99999999999999999999-01-01T00:00:00Z", "2999-01-01T00:00:00Z\u{0}", "1970-01-01T00:00:00Z", "1969-12-31T23:59:59Z",
+        "1677-09-21T00:12:43Z", "2262-04-11T23:47:17Z", "2038-01-19T03:14:08Z", "0000-00-00T00:00:00Z",
+    ];
+    for t in times {
+        for k in ["exp", "nbf", "iat"] {
+            v.push(format!("{{\"{}\":\"{}\"}}", k, t.replace('\u{0}', "\\u0000")));
+        }
+        v.push(format!("{{\"exp\":\"{}\",\"nbf\":\"{}\"}}", t.replace('\u{0}', "\\u0000"), t.replace('\u{0}', "\\u0000")));
+    }
+    for k in ["exp", "nbf"] {
+        for val in ["-1", "0", "1e99", "-1e99", "9223372036854775807", "-9223372036854775808", "18446744073709551615", "253402300800", "[[[[[[[[[[]]]]]]]]]]", "{\"exp\":{\"exp\":{}}}", "\"\"", "\" \"", "\"\\n\""] {
+            v.push(format!("{{\"{}\":{}}}", k, val));
+        }
+    }
+    // deep nesting (serde_json's recursion limit is 128)
+    for depth in [100usize, 127, 128, 129, 1000, 5000] {
+        v.push(format!("{{\"a\":{}1{}}}", "[".repeat(depth), "]".repeat(depth)));
+        v.push(format!("{}{}", "{\"a\":".repeat(depth), "1".to_string() + &"}".repeat(depth)));
+    }
+    v.push(format!("{{\"a\":\"{}\"}}", "x".repeat(100_000)));
+    v.push(format!("{{{}\"z\":1}}", (0..2000).map(|i| format!("\"k{}\":{},", i, i)).collect::<String>()));
+    for _ in 0..(if thorough { 400 } else { 40 }) {
+        let n = rng.range(0, 60);
+        v.push(rng.utf8(n));
+        let t = crate::gens::json_tree(rng, 4).to_string();
+        v.push(t);
+    }
+    v
+}
+
 fn authentic(p: P, key: &KeyMat, rng: &mut Rng, msg: &str, footer: Option<&str>, ia: Option<&str>) -> Option<String> {
     let nonce = rng.bytes(32);
     match core_seal(p, key, &nonce, msg, footer, ia).0 {
@@ -214,6 +258,29 @@ pub fn build_cases(tier: &str, seed: u64, pools: &Pools) -> Vec<Case> {
                     push_all_layers(&mut cases, p, &key, s, None, None, "multibyte-segments");
                     let _ = total;
                 }
+            }
+        }
+        // (3c) LONG expected footers (anything that encodes the expectation into a fixed-size buffer must cope), with 3- and 4-segment input
+        for flen in [64usize, 191, 192, 193, 255, 256, 257, 767, 768, 769, 1023, 1024, 1025, 4096, 70_000] {
+            let f = gens::ascii_of_len(flen, 3);
+            for tok in ["a.b.c.d".to_string(), "...".to_string(), format!("{}AAAA.AAAA", p.header()), format!("{}AAAA.{}", p.header(), util::b64(f.as_bytes())), format!("{}AAAA", p.header())] {
+                push_all_layers(&mut cases, p, &key, tok, Some(f.clone()), None, "long-expected-footer");
+            }
+            if let Some(t) = authentic(p, &key, &mut rng, "{\"a\":1}", Some(&f), None) {
+                push_all_layers(&mut cases, p, &key, t.clone(), Some(f.clone()), None, "authentic+long-footer");
+                push_all_layers(&mut cases, p, &key, t, Some(gens::ascii_of_len(flen + 1, 3)), None, "authentic+other-long-footer");
+            }
+            if p.has_assertion() {
+                if let Some(t) = authentic(p, &key, &mut rng, "{\"a\":1}", None, Some(&f)) {
+                    push_all_layers(&mut cases, p, &key, t, None, Some(f.clone()), "authentic+long-assertion");
+                }
+            }
+        }
+        // (3d) AUTHENTIC tokens whose payload is hostile: the claim handling of the upper layers (JSON parsing, default exp/nbf
+        //      validators, date arithmetic) runs on authenticated but arbitrary content
+        for payload in hostile_payloads(&mut rng, thorough) {
+            if let Some(t) = authentic(p, &key, &mut rng, &payload, None, None) {
+                push_all_layers(&mut cases, p, &key, t, None, None, "authentic+hostile-payload");
             }
         }
         // (4) invalid base64 / padding / odd structure after a correct header
@@ -353,4 +420,4 @@ pub fn replay(case: &Value) -> Report {
     r
 }
 
-pub const RULE: &str = "cases = for each of the 8 protocols x 4 entry points (core, generic, batteries new(), batteries default()): the correct header followed by base64url of EVERY decoded length 0..=400 (thorough 0..=2000) with zero/random/authentic-prefix fill, with and without a matching footer segment; random larger payloads; every character prefix and several extensions of authentic tokens; multi-byte characters substituted and inserted at each of the first 14 positions (so that byte offsets near the header length are not character boundaries); invalid/padded/non-alphabet base64; 0-6 segment strings of arbitrary Unicode; foreign and relabelled tokens; large inputs; garbage public keys; and Key::<N>::try_from(&str) for N in {1,2,24,32,48,49,56,64} on hex strings of every length 0..=200 plus non-hex text. All with VALID key material so that parsing proceeds past key handling. Oracle: any Ok/Err is fine, a panic or process death is the violation. distinct_nontrivial = distinct (entry point, case class, outcome variant) tuples whose input got past the segment-count and header checks";
+pub const RULE: &str = "cases = for each of the 8 protocols x 4 entry points (core, generic, batteries new(), batteries default()): the correct header followed by base64url of EVERY decoded length 0..=400 (thorough 0..=2000) with zero/random/authentic-prefix fill, with and without a matching footer segment; random larger payloads; every character prefix and several extensions of authentic tokens; multi-byte characters substituted and inserted at each of the first 14 positions (so that byte offsets near the header length are not character boundaries); invalid/padded/non-alphabet base64; 0-6 segment strings of arbitrary Unicode; foreign and relabelled tokens; large inputs; expected footers/assertions of 64..70000 bytes with 3- and 4-segment input; AUTHENTIC tokens carrying hostile payloads (non-JSON, non-object, extreme/malformed exp/nbf/iat incl. the edges of year 0 and 9999 with offsets, leap seconds, huge numbers, nesting to depth 5000, 100 KB strings, 2000 members); garbage public keys; and Key::<N>::try_from(&str) for N in {1,2,24,32,48,49,56,64} on hex strings of every length 0..=200 plus non-hex text. All with VALID key material so that parsing proceeds past key handling. Oracle: any Ok/Err is fine, a panic or process death is the violation. distinct_nontrivial = distinct (entry point, case class, outcome variant) tuples whose input got past the segment-count and header checks";
